@@ -9,7 +9,7 @@ ASSUMPTIONS = [
     "values are opaque tokens; task bodies have no side effects besides the harness record",
     "exhaustive only within the alphabet and bounds listed in coverage.bounds",
 ]
-MENU = ["ins:sync", "ins:iv", "leaf:sh", "leaf:re", "ins:yempty", "ins:ynone", "ins:mkitem", "ins:mkchild", "wrap:try", "ins:raise", "item:err", "shape:T", "shape:D", "shape:nest", "leaf:n"]
+MENU = ["leaf:cw", "ins:sync", "ins:iv", "leaf:sh", "leaf:re", "ins:yempty", "ins:ynone", "ins:mkitem", "ins:mkchild", "wrap:try", "ins:raise", "item:err", "shape:T", "shape:D", "shape:nest", "leaf:n"]
 CATS = ["resumed-uncomputed", "step-count", "step-after-computed", "task-computed-twice", "task-not-computed", "awaited-not-computed", "start-order", "started-extra", "started-missing", "scheduler-residue", "hang", "worker-died", "r2-started"]
 _MENU42 = {"menu": ["ins:sync", "ins:iv", "leaf:sh", "leaf:re", "ins:mkchild", "wrap:try", "ins:raise", "item:err"]}
 LADDER = {"quick": [(5, 0, ["call"]), (4, 1, ["call"]), (3, 2, ["call"])],
